@@ -235,6 +235,11 @@ impl<'a> FnGen<'a> {
             };
             self.push_def(defs, b, Def::Assign { var: sp.clone(), value: e });
         }
+        if self.rng.chance(3, 4) {
+            // as a real `sub` would: a flag computation between the SP adjustment and the mask
+            // (consecutive assignments to SP would be merged into one expression by the optimiser)
+            self.push_def(defs, b, Def::Assign { var: reg("ZF", 1), value: bin(IntEqual, var(&sp), cst(0, 8)) });
+        }
         let k = *self.rng.pick(&[3u32, 4, 4, 4, 5, 6, 8, 12]);
         let mask = cst(-(1i64 << k), 8);
         let e = if self.rng.chance(3, 4) { bin(IntAnd, var(&sp), mask) } else { bin(IntAnd, mask, var(&sp)) };
@@ -474,11 +479,11 @@ impl RawProg {
 /// The raw program of function number `idx` (deterministic in (seed, idx)).
 pub fn gen_project(seed: u64, idx: u64) -> RawProg {
     let mut rng = Rng::new(seed.wrapping_mul(0x1_0000_01B3).wrapping_add(idx).wrapping_add(0xC10));
-    let mode = match rng.below(10) {
-        0..=2 => Mode::General,
-        3 | 4 => Mode::Chain,
-        5 | 6 => Mode::Forward,
-        7 => Mode::Prologue,
+    let mode = match rng.below(20) {
+        0..=4 => Mode::General,
+        5..=8 => Mode::Chain,
+        9..=12 => Mode::Forward,
+        13..=15 => Mode::Prologue,
         _ => Mode::Memory,
     };
     let with_caller = rng.chance(1, 3);
